@@ -7,7 +7,7 @@ package main
 // A *case* is (workbook, UnzipXMLSizeLimit, UnzipSizeLimit, history). Transcript
 // lines (see lean/XlModel/Drv/C12.lean):
 //
-//   case <book> <xml> <size> <history> [<iterator script>]   header (answer: "case")
+//   case <book> <xml> <size> <history> [<iterator script>|- [<shared-string script>]]   header (answer: "case")
 //   open <xml> <size> <k> (<name> <declared> <dir> <io> <len> <tag>)*k
 //   getmiss|getnum|setnum|setstr <part>       API call touching one worksheet
 //   getstr <part> <flatlen> <flattag>         GetCellValue of a shared-string cell
@@ -1040,13 +1040,18 @@ func c12FirstDiff(a, b []string) string {
 // ---------- case driver ----------
 
 type c12Ref struct {
-	script []string   // live-iterator script (c12_iter.go)
-	iter   c12IterRun // its run under default limits
-	hist   string
-	res    c12Result
-	obs0   []string
-	obs1   []string
-	status string
+	shscript []string    // sheet-operation script (c12_sheetops.go)
+	shref    c12SheetRun // its run under default limits
+	sb       *c12SBook   // shared-string view of the book (c12_sst.go)
+	sscript  []string    // shared-string script
+	sref     []string    // its outputs under default limits
+	script   []string    // live-iterator script (c12_iter.go)
+	iter     c12IterRun  // its run under default limits
+	hist     string
+	res      c12Result
+	obs0     []string
+	obs1     []string
+	status   string
 }
 
 func c12FirstTouch(hist []string) string {
@@ -1072,8 +1077,14 @@ func c12FirstTouch(hist []string) string {
 func c12Case(r *Run, bk *c12Book, xmlL, sizeL int64, hist []string, ref *c12Ref, deep bool) {
 	hs := strings.Join(hist, ",")
 	header := fmt.Sprintf("case %s %d %d %s", c12Esc(bk.id), xmlL, sizeL, hs)
-	if len(ref.script) > 0 {
-		header += " " + strings.Join(ref.script, ",")
+	if len(ref.script) > 0 || len(ref.sscript) > 0 || len(ref.shscript) > 0 {
+		opt := func(x []string) string {
+			if len(x) == 0 {
+				return "-"
+			}
+			return strings.Join(x, ",")
+		}
+		header += " " + opt(ref.script) + " " + opt(ref.sscript) + " " + opt(ref.shscript)
 	}
 	r.Op(header, "case")
 	res := c12Transcript(r, bk, xmlL, sizeL, hist, ref.res.sstOut, true)
@@ -1152,6 +1163,12 @@ func c12Case(r *Run, bk *c12Book, xmlL, sizeL int64, hist []string, ref *c12Ref,
 	if res.spilled > 0 {
 		c12IterOracle(r, bk, xmlL, sizeL, ref.script, ref.iter, header)
 	}
+	// oracle 3d + transcript: the shared-string table as an object (every case: the in-memory tier is modelled too)
+	if ref.sb != nil && ref.sb.ok {
+		c12SOracle(r, bk, ref.sb, xmlL, sizeL, ref.sscript, ref.sref, header)
+	}
+	// oracle 3e: sheet-collection operations and stream-writer rewrites (every case that opened)
+	c12SheetOracle(r, bk, xmlL, sizeL, ref.shscript, ref.shref, header)
 	// oracle 4: observations
 	obs0, left0, _ := c12Plain(bk, xmlL, sizeL, hist, 0)
 	if left0 != 0 {
@@ -1197,8 +1214,14 @@ func c12MaskSST(a string) string {
 	return a[:i] + c12Esc(c12SST) + ":*" + a[i+j:]
 }
 
-func c12MakeRef(bk *c12Book, hist []string, script []string) *c12Ref {
-	ref := &c12Ref{hist: strings.Join(hist, ","), script: script}
+func c12MakeRef(bk *c12Book, hist []string, script []string, sb *c12SBook, sscript []string, shscript []string) *c12Ref {
+	ref := &c12Ref{hist: strings.Join(hist, ","), script: script, sb: sb, sscript: sscript, shscript: shscript}
+	if len(shscript) > 0 && bk.ok {
+		ref.shref = c12RunSheetScript(bk, 0, 0, shscript)
+	}
+	if sb != nil && sb.ok && len(sscript) > 0 {
+		ref.sref, _ = c12SRun(nil, bk, sb, 0, 0, sscript)
+	}
 	if len(script) > 0 && bk.ok {
 		ref.iter = c12RunIterScript(bk, 0, 0, script)
 	}
@@ -1322,7 +1345,10 @@ func runC12(r *Run, rng *Rng, replay string) {
 		if strings.HasPrefix(id, "gen:") || bi%2 == 0 {
 			script = c12IterScript(rng, len(bk.sheets), bi)
 		}
-		ref := c12MakeRef(bk, hist, script)
+		sb := c12SPrepare(bk)
+		sscript := c12SScript(rng, sb, bi)
+		shscript := c12SheetScript(rng, len(bk.sheets), bi)
+		ref := c12MakeRef(bk, hist, script, sb, sscript, shscript)
 		n := nLim
 		if strings.HasPrefix(id, "fix:Book1") && !thorough {
 			n = 2
@@ -1349,13 +1375,16 @@ func c12Replay(r *Run, path string) {
 			continue
 		}
 		w := strings.Fields(line)
-		if len(w) != 5 && len(w) != 6 {
+		if len(w) < 5 || len(w) > 8 {
 			continue
 		}
-		var script []string
-		if len(w) == 6 {
-			script = strings.Split(w[5], ",")
+		fld := func(i int) []string {
+			if len(w) > i && w[i] != "-" {
+				return strings.Split(w[i], ",")
+			}
+			return nil
 		}
+		script, sscript, shscript := fld(5), fld(6), fld(7)
 		bk, err := c12MakeBook(c12Unesc(w[1]))
 		if err != nil {
 			r.Notes = append(r.Notes, err.Error())
@@ -1364,7 +1393,7 @@ func c12Replay(r *Run, path string) {
 		x, _ := strconv.ParseInt(w[2], 10, 64)
 		s, _ := strconv.ParseInt(w[3], 10, 64)
 		hist := strings.Split(w[4], ",")
-		ref := c12MakeRef(bk, hist, script)
+		ref := c12MakeRef(bk, hist, script, c12SPrepare(bk), sscript, shscript)
 		c12Case(r, bk, x, s, hist, ref, true)
 	}
 }
